@@ -256,6 +256,8 @@ def gen_value_curve(rng, lo, hi, multi=None):
     loads = sorted(set(float(x) for x in np.round(rng.choice(np.arange(10, 101, 5), size=n, replace=False) / 100.0, 2)))
     if 1.0 not in loads and rng.random() < 0.7:
         loads[-1] = 1.0
+    if loads[-1] == 1.0 and rng.random() < 0.3:
+        loads.append(1.1)         # the customary 110 % overload point
     base = rng.uniform(lo, hi)
     return [[l, float(np.round(base * (1 + 0.25 * (1 - l) ** 2) + rng.normal(0, 0.002 * base), 3))] for l in loads]
 
